@@ -10,7 +10,7 @@ Record case := mkCase {
   c_t0 : Z;
   c_vals : list (Z * validator);     (* validators after setup: index -> tokens, shares *)
   c_mults : list (Z * Z);            (* multipliers after setup *)
-  c_supply : Z; c_offset : Z;
+  c_supply : Z; c_offset : Z; c_bonded : Z;
   c_denoms : list Z;                 (* denom indices observed *)
   c_ops : list eop;
   c_expect : list Z }.
@@ -53,7 +53,7 @@ Definition total_sf (st : state) : Z :=
     end) (s_accs st) 0.
 
 Definition flat_row (cfg : config) (denoms vals : list Z) (st : state) (code newid : Z) : list Z :=
-  [code; newid; s_now st; s_supply st; s_offset st]
+  [code; newid; s_now st; s_supply st; s_offset st; s_bonded st]
   ++ map (s_mult st) denoms
   ++ flat_map (fun v => match s_vals st v with Some x => [v_tokens x; v_shares x] | None => [-1; -1] end) vals
   ++ flat_map (fun d => flat_map (fun v => flat_acc cfg st d v) vals) denoms
@@ -68,7 +68,7 @@ Fixpoint scan (cfg : config) (denoms vals : list Z) (st : state) (ops : list eop
   end.
 
 Definition case_init (c : case) : state :=
-  init_state (c_t0 c) (c_vals c) (c_mults c) (c_supply c) (c_offset c) 0.
+  init_state (c_t0 c) (c_vals c) (c_mults c) (c_supply c) (c_offset c) (c_bonded c).
 
 Definition model_obs (c : case) : list Z :=
   let vals := map fst (c_vals c) in
